@@ -62,12 +62,6 @@ CLASSES = {
                 and case.get("cffi_stage") == "typeof" and case.get("exact_fit") is False)),
 }
 
-SELF_FINDINGS = [
-    {"property": "C10", "class": "C10/unsigned-typed-enumerator-expression",
-     "witness": {"decl": "enum e { A = 4294967295u, B = A + 1 };", "c": [4294967295, 0], "cffi": [4294967295, 4294967296]},
-     "what": "enumerator expressions with an unsigned-typed operand inherit C09/unsigned-typed-operand: "
-             "enum{A=4294967295u, B=A+1} gives B=4294967296 and an 8-byte type (gcc: B=0, 4 bytes)"},
-]
 
 BASES = {"int": (4, True), "uint": (4, False), "long": (8, True), "ulong": (8, False),
          "llong": (8, True), "ullong": (8, False)}
@@ -75,8 +69,9 @@ BASES = {"int": (4, True), "uint": (4, False), "long": (8, True), "ulong": (8, F
 
 def translators(ctx):
     sys.path.insert(0, os.path.join(common.VERIF, "translate"))
+    import constexpr_py
     import enum_prim
-    return [enum_prim.run]
+    return [constexpr_py.run, enum_prim.run]
 
 
 # ---------------------------------------------------------------- generation
@@ -439,11 +434,11 @@ def run_batch(ctx, n, start, oracle_only=False, api=False, directed=False):
                 want = {"ok": True, "values": model_vals, "size": sz, "signed": sg}
             got = dict((k2, o.get(k2)) for k2 in want)
             if got != want:
-                ctx.disagree(case_of(e, "in-line", o), got, want, "cffi in-line vs model of _build_enum_type/build_baseinttype")
+                _disagree(ctx, case_of(e, "in-line", o), got, want, "cffi in-line vs model of _build_enum_type/build_baseinttype")
             if o["ok"]:
                 for v, s in o["strings"].items():
                     if e["model_names"][v] != "ok " + s:
-                        ctx.disagree(case_of(e, "in-line", o), s, e["model_names"][v],
+                        _disagree(ctx, case_of(e, "in-line", o), s, e["model_names"][v],
                                      "ffi.string(%d) vs model nameOf" % v)
         # ---- oracle
         if spec_ok:
@@ -521,15 +516,19 @@ def check_module(ctx, enums, g, mode, depth=0):
 
 # ---------------------------------------------------------------- entry points
 
+def _disagree(ctx, case, impl, model, what):
+    """Record a model-vs-implementation disagreement and make it visible in the log."""
+    line = "DISAGREEMENT %s: %s | impl=%r model=%r | %s" % (ctx.prop, what, impl, model,
+                                                        case.get("expr") or case.get("decl"))
+    if len(ctx.disagreements) < 25:          # enough to diagnose from the log alone, no flood
+        common.log(line[:300])
+    ctx.disagree(case, impl, model, what)
+
+
 def _setup(ctx):
     warnings.simplefilter("ignore")
     if ctx.scratch not in sys.path:
         sys.path.insert(0, ctx.scratch)
-    have = set(f["class"] for f in ctx.findings)
-    for f in SELF_FINDINGS:
-        if f["class"] not in have:
-            ctx.findings.append(f)
-            ctx.open_findings.append(f)
 
 
 def correspond(ctx):
